@@ -156,7 +156,8 @@ def y_scripts(seed, count, reentrant):
                 steps.append(("Swap", h, rnd.choice(hs), 0, []))
             else:
                 steps.append(("Notify", "", "", rnd.randrange(1, 4), []))
-        lines.append("X %s sig=%s maxsubs=40 filter=1" % (xid, sig))
+        usub = 1 if (not reentrant and n % 4 == 1) else 0   # every fourth plain history: handles are USubscriptions
+        lines.append("X %s sig=%s maxsubs=40 filter=1 usub=%d" % (xid, sig, usub))
         for op, h, h2, a, sc in steps:
             if op == "Subscribe":
                 lines.append("S op=Subscribe h=%s sc=%s" % (h, sc_str(sc)))
